@@ -46,6 +46,74 @@ def corrupt_shifted_map(run):
     return None
 
 
+def corrupt_bulk_twice(run):
+    """one task of a bulk run executed twice"""
+    for e in run:
+        if e.get("op") == "bulk":
+            for i, a in enumerate(e["accepted"]):
+                if a:
+                    e["execs"][i] = 2
+                    return run
+    return None
+
+
+def corrupt_bulk_refused_ran(run):
+    """a task whose submit was refused ran all the same"""
+    for e in run:
+        if e.get("op") == "bulk" and False in e["accepted"]:
+            e["execs"][e["accepted"].index(False)] = 1
+            return run
+    return None
+
+
+def corrupt_task_attrs(run):
+    """with_priority ignored"""
+    for e in run:
+        if e.get("op") == "task_attrs":
+            e["got_prio"] = e["prio"] + 1
+            return run
+    return None
+
+
+def corrupt_panic_loses_neighbour(run):
+    """the task after a panicking one never runs (its take / exec_end removed)"""
+    pid = [e["id"] for e in run if e.get("op") == "exec_panic"]
+    if not pid:
+        return None
+    ids = [e["id"] for e in run if e.get("op") == "take" and e["id"] != pid[0]]
+    if not ids:
+        return None
+    victim = ids[-1]
+    out = [e for e in run if not (e.get("op") in ("take", "exec_end") and e.get("id") == victim)]
+    out[-1] = dict(out[-1], executed=out[-1]["executed"] - 1)
+    return out
+
+
+def corrupt_global_missing(run):
+    """global() reporting no executor after a successful init"""
+    for e in run:
+        if e.get("op") == "global" and e.get("initialised"):
+            e["present"] = False
+            return run
+    return None
+
+
+def corrupt_blocking_shift(run):
+    for e in run:
+        if e.get("op") == "pbatch" and e.get("api") == "concurrency::spawn_blocking" and len(e.get("out", [])) >= 2 and e["out"][0] != e["out"][1]:
+            e["out"] = e["out"][1:] + e["out"][:1]
+            return run
+    return None
+
+
+def _first_with(files, pred):
+    for p in files:
+        for e in vlib.read_ndjson(p):
+            if pred(e):
+                return p
+    return files[0]
+
+
 def run(ctx):
     ctx.build(BIN)
     th = ctx.thorough
@@ -57,8 +125,10 @@ def run(ctx):
     s_q = ctx.harness(BIN, "queue", "queue")
     s_e = ctx.harness(BIN, "exec", "exec", timeout=1500)
     s_p = ctx.harness(BIN, "par", "par")
+    s_b = ctx.harness(BIN, "bulk", "bulk", timeout=600)
+    s_g = ctx.harness(BIN, "global", "global", timeout=900)
     files = []
-    for s in (s_q, s_e, s_p):
+    for s in (s_q, s_e, s_p, s_b, s_g):
         files += sorted(glob.glob(os.path.join(s["_out"], "*.ndjson")))
     ctx.validate(TRACE, files, what="task execution run")
     qf = sorted(glob.glob(os.path.join(s_q["_out"], "*.ndjson")))
@@ -67,17 +137,37 @@ def run(ctx):
     ctx.selftest_corrupt(TRACE, qf[0], corrupt_double_take, "a task returned by two pops")
     ctx.selftest_corrupt(TRACE, ef[0], corrupt_lost_task, "an accepted task never executed (left queued at the end)")
     ctx.selftest_corrupt(TRACE, pf[0], corrupt_shifted_map, "parallel_map result rotated by one position")
+    bf = sorted(glob.glob(os.path.join(s_b["_out"], "*.ndjson")))
+    gf = sorted(glob.glob(os.path.join(s_g["_out"], "*.ndjson")))
+    ctx.selftest_corrupt(TRACE, bf[0], corrupt_bulk_twice, "a task of a bulk run executed twice")
+    ctx.selftest_corrupt(TRACE, _first_with(bf, lambda e: e.get("op") == "bulk" and False in e["accepted"]), corrupt_bulk_refused_ran,
+                         "a task refused by submit (all queues full) executed all the same")
+    ctx.selftest_corrupt(TRACE, _first_with(ef, lambda e: e.get("op") == "task_attrs"), corrupt_task_attrs, "ClosureTask::with_priority ignored")
+    ctx.selftest_corrupt(TRACE, _first_with(ef, lambda e: e.get("op") == "exec_panic"), corrupt_panic_loses_neighbour,
+                         "a task accepted next to a panicking one never executed")
+    ctx.selftest_corrupt(TRACE, gf[0], corrupt_global_missing, "WorkStealingExecutor::global() empty after a successful init_concurrency")
+    ctx.selftest_corrupt(TRACE, _first_with(gf, lambda e: e.get("api") == "concurrency::spawn_blocking" and len(e.get("out", [])) >= 2 and e["out"][0] != e["out"][1]),
+                         corrupt_blocking_shift, "spawn_blocking results rotated by one position")
     # --- extension: Pipeline::execute_stream / execute_two_stage, BatchCollector, async blob stores, fiber_yield,
     # fiber_aio (spec/PipelineStream.tla, harness bin c18b, tools/props/C18b.py)
     from props import C18b
     C18b.run_ext(ctx)
     cov = ctx.cov
-    cov["evaluations"] = s_q.get("events", 0) + s_e.get("events", 0) + s_p.get("events", 0) + cov.get("ext_evaluations", 0)
-    cov["distinct_nontrivial"] = s_q.get("runs", 0) + s_e.get("runs", 0) + s_p.get("runs", 0)
+    own = (s_q, s_e, s_p, s_b, s_g)
+    cov["evaluations"] = sum(s.get("events", 0) for s in own) + cov.get("ext_evaluations", 0)
+    cov["distinct_nontrivial"] = sum(s.get("runs", 0) for s in own)
     cov["executor_configs"] = s_e.get("configs", 0)
     cov["executor_configs_with_unfinished_tasks"] = s_e.get("stuck_configs", 0)
+    cov["executor_configs_with_panicking_task"] = s_e.get("panic_configs", 0)
+    cov["executor_configs_with_panicking_task_unfinished"] = s_e.get("panic_configs_stuck", 0)
+    cov["bulk_submits_refused"] = s_b.get("refused", 0)
+    if s_b.get("refused", 0) == 0:
+        ctx.tool_errors.append("vacuity: the bulk runs never reached the 'all queues full' refusal")
     cov["rule"] = ("queue: seeded random push_local/pop_local/steal/balance histories on the real WorkStealingQueue (capacities 1..8), drained at the end; "
-                   "exec: real WorkStealingExecutor for workers 1..4 x capacities {1,2,3,4,16,256} x task counts around the capacity, 40, 130, 260 x burst/yield variants; "
+                   "exec: real WorkStealingExecutor for workers {1,2,3,4,8} x capacities {1,2,3,4,16,256} x task counts around one local queue's capacity, around all local queues together (overflow to the global queue), 40, 130, 260 "
+                   "x burst/yield variants x {Task impl, ClosureTask builders, submit_closure} x tasks submitted from inside tasks; a task panicking in the middle of the batch (own subject); "
+                   "bulk: > 10 000 tasks behind blocked workers (global queue limit: refusals, every accepted task once); "
+                   "global: init_concurrency / init / global(), batches on the process-wide executor, concurrency::spawn+join_all / parallel_map / parallel_reduce / spawn_blocking with failing and panicking items; "
                    "par: FiberPool/Pipeline calls over input lengths 0..40 with failing items; distinct = runs (each run has its own seed-derived configuration and contains at least one accepted task or one call)")
     ctx.sample_from_trace(ef[0], 12)
     ctx.sample_from_trace(pf[0], 4)
@@ -98,6 +188,11 @@ def replay(ctx, path):
         if hasattr(C18b, "replay_ext"):
             return C18b.replay_ext(ctx, rep)
     mode = {"wsq": "queue", "wse": "exec", "par": "par"}.get(fam, "exec")
+    subj = rep.get("subject") or ""
+    if subj in ("wse@bulk",):
+        mode = "bulk"
+    if subj in ("wse@global", "par@module"):
+        mode = "global"
     s = ctx.harness(BIN, mode, "rp", timeout=1500)
     files = sorted(glob.glob(os.path.join(s["_out"], "*.ndjson")))
     ctx.validate(TRACE, files, what="replay of " + os.path.basename(path))
